@@ -18,6 +18,8 @@ Robustness sweeps of the rules against behaviour-preserving changes of *shape* (
   aug_expand   `x += 1` becomes `x = x + 1` (numeric constants only);
   lit_ctor     the first empty literal of a statement is spelled as a constructor call (`[]` -> `list()`, `{}` -> `dict()`, `()` -> `tuple()`);
   ret_local    `return <expression>` becomes `_rv = <expression>; return _rv`;
+  walrus       `x = E` immediately followed by an `if` whose test evaluates x first becomes `if (x := E) ...`;
+  tern_fold    `if c: x = a else: x = b` becomes `x = a if c else b`;
   move_method  every undecorated method (not used by the class body itself) is moved to the end of its class.
 
 Neither changes what the program does, so every finding on such a variant is a false alarm of a rule that matched the
